@@ -133,16 +133,24 @@ class Interval:
                 return lim_mul(b, a)
             return normalize_constant(a * b)
 
+        def closed_zero(a: Expr, is_open: bool) -> bool:
+            # An attained endpoint 0: every product with it is the attained value 0
+            return not is_open and not a.is_inf() and eval_expr(a) == 0
+
+        def mul_open(a: Expr, a_open: bool, b: Expr, b_open: bool) -> bool:
+            return (a_open or b_open) and not (closed_zero(a, a_open) or closed_zero(b, b_open))
+
         bounds = [
-            (lim_mul(self.start, other.start), self.left_open or other.left_open),
-            (lim_mul(self.start, other.end), self.left_open or other.right_open),
-            (lim_mul(self.end, other.start), self.right_open or other.left_open),
-            (lim_mul(self.end, other.end), self.right_open or other.right_open)
+            (lim_mul(self.start, other.start), mul_open(self.start, self.left_open, other.start, other.left_open)),
+            (lim_mul(self.start, other.end), mul_open(self.start, self.left_open, other.end, other.right_open)),
+            (lim_mul(self.end, other.start), mul_open(self.end, self.right_open, other.start, other.left_open)),
+            (lim_mul(self.end, other.end), mul_open(self.end, self.right_open, other.end, other.right_open))
         ]
         bounds = [bd for bd in bounds if bd[0] is not None]
 
+        # On ties prefer the closed candidate: the value is attained
         start, left_open = min(bounds, key=lambda p: (eval_expr(p[0]), p[1]))
-        end, right_open = max(bounds, key=lambda p: (eval_expr(p[0]), p[1]))
+        end, right_open = max(bounds, key=lambda p: (eval_expr(p[0]), not p[1]))
         return Interval(start, end, left_open, right_open)
 
     def inverse(self) -> "Interval":
